@@ -169,7 +169,7 @@ def run_shard(spec, ctx):
         return
     rnd = ctx.rnd
     for n in range(spec['n']):
-        kind = ('polar', 'frame', 'antimeridian', 'uniform', 'pattern', 'edge', 'seam')[n % 7]
+        kind = ('polar', 'frame', 'antimeridian', 'uniform', 'pattern', 'edge', 'seam', 'equator')[n % 8]
         r = rnd.randint(5, 29)
         try:
             if kind == 'pattern':
